@@ -52,7 +52,7 @@ pub struct Case {
     pub value: Vec<G>,
     /// allocation order used for the second table (a permutation of 0..vars.len())
     pub perm: Vec<usize>,
-    /// pairs of general type variables unified before canonicalization
+    /// pairs of variables of the same kind (general type, const or lifetime) unified before canonicalization
     pub unify: Vec<(usize, usize)>,
 }
 
@@ -385,13 +385,16 @@ impl Property for C16 {
         if perm.iter().enumerate().all(|(i, p)| i == *p) {
             perm.reverse();
         }
-        let gen_vars: Vec<usize> = of(&[0]);
         let mut unify = vec![];
-        if gen_vars.len() >= 2 {
-            for _ in 0..t.choose(3) {
-                let a = gen_vars[t.choose(gen_vars.len())];
-                let b = gen_vars[t.choose(gen_vars.len())];
-                if a != b {
+        for _ in 0..t.choose(3) {
+            // same kind; lifetime variables only within one universe (a lifetime variable cannot be
+            // unified with one of a higher universe: that yields outlives obligations instead)
+            let kind = [0u8, 0, 4, 3][t.choose(4)];
+            let pool: Vec<usize> = of(&[kind]);
+            if pool.len() >= 2 {
+                let a = pool[t.choose(pool.len())];
+                let b = pool[t.choose(pool.len())];
+                if a != b && (kind != 3 || vars[a].1 == vars[b].1) {
                     unify.push((a, b));
                 }
             }
@@ -446,8 +449,20 @@ impl Property for C16 {
             let build = |order: &[usize], unify: &[(usize, usize)]| -> (Tab, Canonical<Substitution<ChalkIr>>) {
                 let mut tab = mk_table(&case.vars, order);
                 for (a, b) in unify {
-                    let (x, y) = (tab.vars[*a].assert_ty_ref(I).clone(), tab.vars[*b].assert_ty_ref(I).clone());
-                    tab.table.relate(I, &db, &env, Variance::Invariant, &x, &y).expect("unifying two general variables");
+                    match case.vars[*a].0 {
+                        4 => {
+                            let (x, y) = (tab.vars[*a].assert_const_ref(I).clone(), tab.vars[*b].assert_const_ref(I).clone());
+                            tab.table.relate(I, &db, &env, Variance::Invariant, &x, &y).expect("unifying two const variables");
+                        }
+                        3 => {
+                            let (x, y) = (tab.vars[*a].assert_lifetime_ref(I).clone(), tab.vars[*b].assert_lifetime_ref(I).clone());
+                            tab.table.relate(I, &db, &env, Variance::Invariant, &x, &y).expect("unifying two lifetime variables");
+                        }
+                        _ => {
+                            let (x, y) = (tab.vars[*a].assert_ty_ref(I).clone(), tab.vars[*b].assert_ty_ref(I).clone());
+                            tab.table.relate(I, &db, &env, Variance::Invariant, &x, &y).expect("unifying two general variables");
+                        }
+                    }
                 }
                 let v = tab.value(&case.value);
                 let c = tab.table.canonicalize(I, v).quantified;
